@@ -13,10 +13,10 @@ package main
 
 import (
 	"fmt"
-	"os"
 	"go/constant"
 	"go/token"
 	"go/types"
+	"os"
 	"path/filepath"
 	"sort"
 	"strconv"
@@ -453,7 +453,7 @@ func bitBudget(c *Ctx, p *Program) {
 	}
 	for _, r := range rows {
 		if !r.used {
-			c.Stale("bitbudget:"+r.typ+":"+r.loc)
+			c.Stale("bitbudget:" + r.typ + ":" + r.loc)
 		}
 	}
 	c.Floor("B1-bit-budget", b.nObl, 15)
